@@ -426,5 +426,17 @@ def main():
     sys.exit(0)
 
 
+def _guarded_main():
+    """an internal error of the machinery is never a verdict: exit 2 (inconclusive), not a traceback with exit 1"""
+    try:
+        main()
+    except SystemExit:
+        raise
+    except BaseException:
+        import traceback
+        print("INCONCLUSIVE: internal error of the check: " + traceback.format_exc()[-1500:])
+        sys.exit(2)
+
+
 if __name__ == "__main__":
-    main()
+    _guarded_main()
